@@ -33,11 +33,19 @@ class SeamMissing(Exception):
     pass
 
 
-def _live(entry):
-    """Would a sane kernel still run this queued activation? (not revoked, target not closed)"""
-    target, signal = entry
+def _live(entry, revoked=None):
+    """Would a sane kernel still run this queued activation? (not revoked, target not closed)
+
+    Revocation is for good: an activation whose signal was revoked after it had been queued stays
+    dead even if the signal object is later made valid again (`revoked`: id(signal) -> (tick of
+    its last observed revoke(), signal), fed by the soft wrapper on Interrupt.revoke)."""
+    target, signal = entry[0], entry[1]
     if signal is not None and not signal:
         return False
+    if revoked and signal is not None and len(entry) > 2:
+        seen = revoked.get(id(signal))
+        if seen is not None and seen[1] is signal and seen[0] >= entry[2]:
+            return False
     return getattr(target, "cr_frame", entry) is not None
 
 
@@ -93,6 +101,8 @@ class Seam:
         self.current = None       # name of the actor being activated
         self.current_target = None
         self.verdict = None
+        self.revoked = {}         # id(signal) -> (tick of the last observed revoke(), signal)
+        self._orig_revoke = None
 
     # -- names -------------------------------------------------------------------------
     def name_of(self, target):
@@ -153,6 +163,16 @@ class Seam:
         cls.schedule = schedule
         cls.__init__ = __init__
         cls.run = run
+        # soft seam point (absent after a refactoring: the model falls back to asking the signal
+        # at execution time): remember when a wake-up signal was revoked
+        signal_cls = getattr(L, "Interrupt", None)
+        orig_revoke = getattr(signal_cls, "revoke", None)
+        if callable(orig_revoke):
+            def revoke(signal, *args, **kwargs):
+                seam.revoked[id(signal)] = (seam.tick, signal)
+                return orig_revoke(signal, *args, **kwargs)
+            self._orig_revoke = (signal_cls, orig_revoke)
+            signal_cls.revoke = revoke
         self.installed = True
         self._arm_cpu_watchdog()
         return self
@@ -187,6 +207,9 @@ class Seam:
         if self.installed:
             cls = self._cls
             cls._run_coroutine, cls.schedule, cls.__init__, cls.run = self._orig
+            if self._orig_revoke is not None:
+                self._orig_revoke[0].revoke = self._orig_revoke[1]
+                self._orig_revoke = None
             self.installed = False
 
     def __enter__(self):
@@ -235,7 +258,7 @@ class Seam:
                          "activation scheduled for %r at time %r" % (due, now))
                 model.tainted = True
             else:
-                model.queues.setdefault(due, []).append([target, signal])
+                model.queues.setdefault(due, []).append([target, signal, self.tick])
         self._fire_due()
 
     def _on_activation(self, loop, target, signal):
@@ -270,7 +293,7 @@ class Seam:
             if now != model.time or not model.started:
                 self._advance(model, now)
             queue = model.queues.get(now)
-            while queue and not _live(queue[0]):
+            while queue and not _live(queue[0], self.revoked):
                 queue.pop(0)          # revoked or target closed before its turn: dropped
             if not queue:
                 self._kv("C02/unscheduled-activation",
@@ -278,7 +301,7 @@ class Seam:
                          % (name, now))
                 model.tainted = True
             else:
-                exp_target, exp_signal = queue.pop(0)
+                exp_target, exp_signal = queue.pop(0)[:2]
                 if exp_target is not target or exp_signal is not signal:
                     self._kv("C02/fifo",
                              "at %r turn of %s(%s) but %s(%s) was made runnable first"
@@ -295,7 +318,7 @@ class Seam:
         """The clock moves from model.time to now: nothing live may be left behind."""
         model.started = True
         for due in [d for d in model.queues if d < now]:
-            left = [e for e in model.queues.pop(due) if _live(e)]
+            left = [e for e in model.queues.pop(due) if _live(e, self.revoked)]
             if left:
                 self._kv("C01/skipped",
                          "clock moved to %r although %d activation(s) were still due at %r"
@@ -312,7 +335,7 @@ class Seam:
         if model is None or model.loop is not loop or model.tainted:
             return
         for due, queue in model.queues.items():
-            left = [e for e in queue if _live(e)]
+            left = [e for e in queue if _live(e, self.revoked)]
             if left:
                 self._kv("C15/run-returned-with-pending-work",
                          "run() returned with %d live activation(s) due at %r (first: %s)"
